@@ -1,6 +1,7 @@
 mod common;
 mod core;
 mod explore;
+mod isolate;
 mod pdfgen;
 mod props;
 mod refread;
@@ -28,6 +29,7 @@ fn registry() -> Vec<(&'static str, RunFn, ReplayFn)> {
         ("C11", props::c11::run, props::c11::replay),
         ("C12", props::c12::run, props::c12::replay),
         ("C13", props::c13::run, props::c13::replay),
+        ("C14", props::c14::run, props::c14::replay),
         ("C16", props::c16::run, props::c16::replay),
         ("C17", props::c17::run, props::c17::replay),
         ("C19", props::c19::run, props::c19::replay),
@@ -131,6 +133,7 @@ fn main() {
         }
         Some("worker") => match args.get(2).map(|s| s.as_str()) {
             Some("c13") => props::c13::worker_main(),
+            Some("walk") => isolate::walk_worker_main(),
             other => {
                 eprintln!("unknown worker {:?}", other);
                 std::process::exit(2);
@@ -145,6 +148,7 @@ fn main() {
                 "gen:rich-chain" => pdfgen::docs::rich_doc(b"", pdfgen::docs::DocOpts::CHAIN),
                 "gen:rich-chain-stream" => pdfgen::docs::rich_doc(b"", pdfgen::docs::DocOpts::CHAIN_STREAM),
                 "gen:small" => pdfgen::docs::small_doc(b""),
+                "gen:hostile" => pdfgen::docs::rich_doc_with(b"", pdfgen::docs::DocOpts::CLASSIC, &pdfgen::docs::hostile_objects()),
                 path => std::fs::read(path).expect("read"),
             };
             if let Some(out) = args.get(4) {
